@@ -65,7 +65,7 @@ fn still_quiet(net: &mut Net) -> Option<String> {
 }
 
 fn detail(net: &Net, extra: serde_json::Value) -> serde_json::Value {
-    json!({"schedule_tail": tail(&net.log, 60), "extra": extra})
+    json!({"schedule_tail": tail(&net.log, 60), "extra": extra, "old_peer_ends": net.links.iter().map(|l| l.old_peer).collect::<Vec<_>>(), "read_only_ends": net.links.iter().map(|l| l.ro).collect::<Vec<_>>()})
 }
 
 fn common_safety(cx: &mut Ctx, net: &Net) -> bool {
@@ -109,10 +109,10 @@ impl Check for C20 {
         tier.pick(40, 600)
     }
     fn rule(&self) -> String {
-        "case = two peers with a random shared prefix and divergent suffixes (0–60 quick / 0–250 thorough changes; one peer may be empty), one reliable in-order link, every message passed through Message::encode → decode; a random interleaving of generate(p), deliver(p) and local edit+commit steps (20–80 actions), with Bloom false positives injected through hook H2 at rate 0, 1 %, 10 % or 50 % (deterministic per hash) and, in a quarter of the cases, one peer emulating an implementation that predates the flags section; then a quiescence phase (no more edits): rounds of drain/generate/deliver. Violation = a generated message fails to be received; more than R = 20 + 2·(changes in the system) rounds without both generates returning None; heads or OBS state differ at quiescence; a further generate returns Some. Non-trivial = ≥1 injected false positive or ≥1 edit between a generate and its delivery; distinct by schedule hash.".into()
+        "case = two peers with a random shared prefix and divergent suffixes (0–60 quick / 0–250 thorough changes; one peer may be empty), one reliable in-order link, every message passed through Message::encode → decode; a random interleaving of generate(p), deliver(p) and local edit+commit steps (20–80 actions), with Bloom false positives injected through hook H2 at rate 0, 1 %, 10 % or 50 % (deterministic per hash) and, in a quarter of the cases, one peer emulating an implementation that predates the flags section; then a quiescence phase (no more edits): rounds of drain/generate/deliver, in half of the cases with crossing messages (both ends generate before either receives). Violation = a generated message fails to be received; more than R = 20 + 2·(changes in the system) rounds without both generates returning None; heads or OBS state differ at quiescence; a further generate returns Some. Non-trivial = ≥1 injected false positive or ≥1 edit between a generate and its delivery; distinct by schedule hash.".into()
     }
     fn required_counters(&self) -> Vec<&'static str> {
-        vec!["sessions", "sessions_converged", "messages_delivered", "messages_with_changes", "bloom_false_positives_injected", "edits_between_generate_and_delivery", "sessions_with_old_peer", "v2_messages"]
+        vec!["sessions", "sessions_converged", "messages_delivered", "messages_with_changes", "bloom_false_positives_injected", "edits_between_generate_and_delivery", "sessions_with_old_peer", "sessions_with_crossing_quiescence", "v2_messages"]
     }
     fn run_case(&self, cx: &mut Ctx, case: u64, rng: &mut Rng) {
         set_fp(0, 0);
@@ -156,6 +156,10 @@ impl Check for C20 {
         }
         let total = net.total_changes();
         let bound = 20 + 2 * total;
+        net.crossing = rng.chance(50);
+        if net.crossing {
+            cx.count("sessions_with_crossing_quiescence");
+        }
         let rounds = net.run_to_quiescence(bound);
         let injected = automerge::verif_hooks::bloom_false_positives_injected() - fp0;
         set_fp(0, 0);
@@ -217,10 +221,10 @@ impl Check for C21 {
         tier.pick(45, 600)
     }
     fn rule(&self) -> String {
-        "case = 3–5 (thorough: 3–6) peers with divergent histories on a line, star, ring or complete topology; a random schedule (40–160 actions) of generate, deliver, edit+commit, drop_link (everything queued on the link in both directions is lost) and reconnect (each end independently restarts with State::new() or with State::decode(State::encode(old state))), Bloom false positives injected at rate 0/1 %/10 % through hook H2; at the end every link that is down is reconnected or left down at random, edits stop, and the links that are up run rounds of drain/generate/deliver. Violation = a generated message fails to be received; State::decode(State::encode()) fails; a connected component does not go quiet within R = peers·(20 + 2·changes) rounds; peers of one connected component end with different heads or different OBS state; a further generate returns Some. Non-trivial = ≥1 drop with messages in flight and ≥1 reconnect; distinct by schedule hash.".into()
+        "case = 3–5 (thorough: 3–6) peers with divergent histories on a line, star, ring or complete topology; a random schedule (40–160 actions) of generate, deliver, edit+commit, drop_link (everything queued on the link in both directions is lost), crash (a peer restarts from an older copy of its own document under a new actor id while its sync states and its peers' are the persisted ones, so they name heads it no longer has) and reconnect (each end independently restarts with State::new() or with State::decode(State::encode(old state))), Bloom false positives injected at rate 0/1 %/10 % through hook H2; at the end every link that is down is reconnected or left down at random, edits stop, and the links that are up run rounds of drain/generate/deliver. Violation = a generated message fails to be received; State::decode(State::encode()) fails; a connected component does not go quiet within R = peers·(20 + 2·changes) rounds; peers of one connected component end with different heads or different OBS state; a further generate returns Some. Non-trivial = ≥1 drop with messages in flight and ≥1 reconnect; distinct by schedule hash.".into()
     }
     fn required_counters(&self) -> Vec<&'static str> {
-        vec!["sessions", "sessions_converged", "drops_with_messages_in_flight", "messages_lost_at_disconnect", "reconnects_fresh_state", "reconnects_persisted_state", "messages_with_changes", "components_checked"]
+        vec!["sessions", "sessions_converged", "drops_with_messages_in_flight", "messages_lost_at_disconnect", "reconnects_fresh_state", "reconnects_persisted_state", "messages_with_changes", "components_checked", "crash_restores"]
     }
     fn run_case(&self, cx: &mut Ctx, case: u64, rng: &mut Rng) {
         set_fp(0, 0);
@@ -237,6 +241,8 @@ impl Check for C21 {
         cx.count("sessions");
         cx.count(&format!("topology_{topo}"));
         let actions = rng.range(40, 160);
+        let mut snapshots: Vec<Option<AutoCommit>> = (0..n).map(|_| None).collect();
+        let mut crash_actor = 0usize;
         for _ in 0..actions {
             let li = rng.below(net.links.len());
             let p = if rng.chance(50) { net.links[li].a } else { net.links[li].b };
@@ -252,7 +258,24 @@ impl Check for C21 {
                     let k = rng.range(1, 3);
                     net.edit(q, rng, k);
                 }
-                80..=89 => net.drop_link(li),
+                80..=87 => net.drop_link(li),
+                88..=89 => {
+                    // remember a copy of a peer's document, or crash a peer back to its remembered copy
+                    let q = rng.below(n);
+                    if snapshots[q].is_some() && rng.chance(50) {
+                        let older = snapshots[q].take().unwrap().with_actor(amv::gen::actor(100 + crash_actor));
+                        crash_actor += 1;
+                        if let Err(e) = net.crash_restore(q, older) {
+                            cx.violation("state-roundtrip-fails", e, detail(&net, json!({})));
+                            set_fp(0, 0);
+                            return;
+                        }
+                    } else {
+                        let mut copy = net.docs[q].clone();
+                        copy.commit();
+                        snapshots[q] = Some(copy);
+                    }
+                }
                 _ => {
                     let persisted = [rng.chance(50), rng.chance(50)];
                     if let Err(e) = net.reconnect(li, persisted) {
@@ -280,10 +303,12 @@ impl Check for C21 {
         }
         let total = net.total_changes();
         let bound = n * (20 + 2 * total);
+        net.crossing = rng.chance(50);
         let rounds = net.run_to_quiescence(bound);
         let injected = automerge::verif_hooks::bloom_false_positives_injected() - fp0;
         set_fp(0, 0);
         cx.add("bloom_false_positives_injected", injected);
+        cx.add("crash_restores", net.crash_restores);
         account(cx, &net);
         if !common_safety(cx, &net) {
             return;
@@ -369,6 +394,8 @@ impl Check for C22 {
                 cx.count("sessions_with_old_peer");
             }
         }
+        // the emulated old peer forces the "empty heads" reset fallback; its findings are keyed apart
+        let tag = if net.links.iter().any(|l| l.old_peer[0] || l.old_peer[1]) { "old-peer" } else { "current-peers" };
         let actions = rng.range(30, 100);
         for _ in 0..actions {
             let li = rng.below(net.links.len());
@@ -416,7 +443,7 @@ impl Check for C22 {
         }
         let Some(r1) = r1 else {
             account(cx, &net);
-            cx.violation("not-quiet-within-bound|phase1", format!("with read-only flags set the peers did not go quiet within {bound} rounds"), detail(&net, json!({"flags": net.links.iter().map(|l| l.ro).collect::<Vec<_>>() })));
+            cx.violation(&format!("not-quiet-within-bound|phase1|{tag}"), format!("with read-only flags set the peers did not go quiet within {bound} rounds"), detail(&net, json!({"flags": net.links.iter().map(|l| l.ro).collect::<Vec<_>>() })));
             return;
         };
         cx.max("rounds_to_quiescence", r1 as u64);
@@ -429,8 +456,19 @@ impl Check for C22 {
                     let have = hashes_of(&mut net.docs[rw_p]);
                     let missing: Vec<String> = before[ro_p].iter().filter(|h| !have.contains(h)).map(|h| h.to_string()).collect();
                     if !missing.is_empty() {
+                        if cx.verbose {
+                            for e in 0..2 {
+                                let st = &net.links[li].st[e];
+                                eprintln!("  end{e}: read_only={} peer_read_only={} needs_reset={} in_flight={} have_responded={} sent_hashes={} shared_heads={:?} their_heads={:?} their_need={:?} last_sent_heads={:?} caps={:?}", st.read_only, st.peer_read_only, st.needs_reset, st.in_flight, st.have_responded, st.sent_hashes.len(), hash_hex(&st.shared_heads), st.their_heads.as_ref().map(|h| hash_hex(h)), st.their_need.as_ref().map(|h| hash_hex(h)), hash_hex(&st.last_sent_heads), st.their_capabilities);
+                            }
+                            for p in [rw_p, ro_p] {
+                                let q = queued_changes(&mut net.docs[p]);
+                                eprintln!("  P{p}: heads {:?} queued {:?} missing {:?}", hash_hex(&net.docs[p].get_heads()), q.iter().map(|c| c.hash().to_string()).collect::<Vec<_>>(), hash_hex(&net.docs[p].get_missing_deps(&[])));
+                            }
+                            eprintln!("  missing at P{rw_p}: {missing:?}");
+                        }
                         account(cx, &net);
-                        cx.violation("writable-peer-lacks-read-only-peers-changes", format!("P{ro_p} is read-only and P{rw_p} is read-write; after quiescence P{rw_p} still lacks {} of P{ro_p}'s changes", missing.len()), detail(&net, json!({"missing": missing})));
+                        cx.violation(&format!("writable-peer-lacks-read-only-peers-changes|{tag}"), format!("P{ro_p} is read-only and P{rw_p} is read-write; after quiescence P{rw_p} still lacks {} of P{ro_p}'s changes", missing.len()), detail(&net, json!({"missing": missing})));
                         return;
                     }
                 }
@@ -448,13 +486,13 @@ impl Check for C22 {
             return;
         }
         let Some(r2) = r2 else {
-            cx.violation("not-quiet-within-bound|phase2", format!("after switching back to read-write the peers did not go quiet within {bound} rounds"), detail(&net, json!({})));
+            cx.violation(&format!("not-quiet-within-bound|phase2|{tag}"), format!("after switching back to read-write the peers did not go quiet within {bound} rounds"), detail(&net, json!({})));
             return;
         };
         cx.max("rounds_to_quiescence", r2 as u64);
         let all: Vec<usize> = (0..n).collect();
         if let Some(d) = converged(&mut net, &all) {
-            cx.violation("skipped-changes-never-arrive", format!("after switching every end back to read-write and reaching quiescence, {d}"), detail(&net, json!({})));
+            cx.violation(&format!("skipped-changes-never-arrive|{tag}"), format!("after switching every end back to read-write and reaching quiescence, {d}"), detail(&net, json!({})));
             return;
         }
         if let Some(d) = still_quiet(&mut net) {
